@@ -1,6 +1,7 @@
 (* C11 - every metadata encoder is inverted by its decoder.  Property theorems only.
    Determinism of encoding is definitional: every enc_X is a Gallina function. *)
-From HV Require Import Base.Prelude Base.Outcome Base.Bytes Model.CodecMsg Proofs.CodecMsg.
+From HV Require Import Base.Prelude Base.Outcome Base.Bytes Model.CodecMsg Proofs.CodecMsg
+  Model.CodecType Proofs.CodecType.
 
 Theorem C11_dataspace_roundtrip : forall x, wf_dataspace x = true ->
   dec_dataspace (enc_dataspace x) = Ok (proj_dataspace x).
@@ -24,3 +25,26 @@ Print Assumptions C11_layout_roundtrip.
 Theorem C11_layout_len : forall sb x, wf_layout sb x = true -> blen (enc_layout sb x) = size_layout sb x.
 Proof. exact layout_blen. Qed.
 Print Assumptions C11_layout_len.
+
+(* datatype message, classes fixed-point, float, string, reference, opaque, compound (properties given
+   as bytes).  proj_datatype spells out what the decoder returns: version 1 and the generated property
+   bytes for numeric types; one property byte 0 for strings; the zero-padded tag and its padded length
+   as class bit field for opaque; the value itself for compound. *)
+Theorem C11_datatype_roundtrip : forall x, wf_datatype x = true ->
+  dec_datatype (enc_datatype x) = Ok (proj_datatype x).
+Proof. exact datatype_roundtrip. Qed.
+Print Assumptions C11_datatype_roundtrip.
+
+Theorem C11_datatype_len : forall x, wf_datatype x = true -> blen (enc_datatype x) = size_datatype x.
+Proof. exact datatype_blen. Qed.
+Print Assumptions C11_datatype_len.
+
+(* D10: variable-length datatype: the decoder does not return the encoded class / flags / base type *)
+Theorem C11_vlen_refuted :
+  exists x, dt_class x = DT_VLEN /\ encok_datatype x = true /\
+            match dec_datatype (enc_datatype x) with
+            | Ok y => transported x y = false
+            | _ => True
+            end.
+Proof. exact vlen_refuted. Qed.
+Print Assumptions C11_vlen_refuted.
